@@ -796,6 +796,25 @@ class Interp:
         elif isinstance(t, ast.Attribute):
             base = self.eval(t.value, fr)
             self.set_attr(base, t.attr, v)
+        elif isinstance(t, ast.Subscript) and isinstance(t.slice, ast.Slice):
+            # lst[a:b] = values on a local list: the local is rebound to
+            # the spliced list (a term when a bound or the values are
+            # symbolic)
+            if not isinstance(t.value, ast.Name) or t.slice.step is not None:
+                raise Inexact('slice assignment to a non-local target')
+            base = self.eval(t.value, fr)
+            lo = self.eval(t.slice.lower, fr) if t.slice.lower else K(None)
+            hi = self.eval(t.slice.upper, fr) if t.slice.upper else K(None)
+            if isinstance(base, ListV) and isinstance(v, (ListV, TupleV)) \
+                    and isinstance(lo, K) and isinstance(hi, K):
+                items = list(base.items)
+                items[lo.v:hi.v] = list(v.items)
+                base.items[:] = items
+                return
+            nt = T('splice', self.termify(base), self.termify(lo),
+                   self.termify(hi), self.termify(v))
+            self.types[nt] = 'list'
+            fr.env[t.value.id] = nt
         elif isinstance(t, ast.Subscript):
             base = self.eval(t.value, fr)
             idx = self.eval(t.slice, fr)
@@ -950,9 +969,15 @@ class Interp:
             return False
         test_if = s.body[0]
         if test_if.orelse or not test_if.body or \
-                not isinstance(test_if.body[-1], ast.Break) or \
+                not isinstance(test_if.body[-1], (ast.Break, ast.Raise,
+                                                  ast.Return)) or \
                 not isinstance(s.target, ast.Name):
             return False
+        last = test_if.body[-1]
+        if not isinstance(last, ast.Break) and any(
+                isinstance(n, ast.Name) and n.id == s.target.id
+                for n in ast.walk(last)):
+            return False        # the exit mentions the element found
         for st in test_if.body[:-1]:
             if not (isinstance(st, ast.Assign) and
                     all(isinstance(t, ast.Name) for t in st.targets) and
@@ -969,6 +994,8 @@ class Interp:
         cond = T('exists', it, ph, test)
         if self.truth(cond):
             self.exec_block(test_if.body[:-1], fr)
+            if not isinstance(last, ast.Break):
+                self.exec_block([last], fr)     # raise / return
         return True
 
     def _pure_term(self, e, binding, fr):
@@ -1001,6 +1028,21 @@ class Interp:
             base = self._pure_term(e.func.value, binding, fr)
             return T('mcall', base, e.func.attr,
                      *[self._pure_term(a, binding, fr) for a in e.args])
+        if isinstance(e, ast.Call) and isinstance(e.func, ast.Name) and \
+                not e.keywords and e.func.id in (
+                    'int', 'str', 'len', 'float', 'ord', 'chr', 'bool',
+                    'abs') and e.func.id not in binding and \
+                e.func.id not in fr.env:
+            return T('call', e.func.id,
+                     *[self._pure_term(a, binding, fr) for a in e.args])
+        if isinstance(e, ast.BinOp) and type(e.op) in models.ARITH_SYM:
+            return T('binop', models.ARITH_SYM[type(e.op)],
+                     self._pure_term(e.left, binding, fr),
+                     self._pure_term(e.right, binding, fr))
+        if isinstance(e, ast.IfExp):
+            return T('ifexp', self._pure_term(e.test, binding, fr),
+                     self._pure_term(e.body, binding, fr),
+                     self._pure_term(e.orelse, binding, fr))
         raise Inexact('test of the loop is not a pure expression')
 
     def iterate(self, it):
@@ -1496,6 +1538,37 @@ class Interp:
     def ex_Starred(self, e, fr):
         raise Inexact('starred expression')
 
+    def _comp_symbolic(self, e, fr, kind):
+        """One generator over a symbolic sequence with a pure element and
+        pure conditions: kept as one term (evaluated element by element on
+        grid values) instead of a bounded unrolling."""
+        if kind == 'dict' or len(e.generators) != 1 or self.guide is not None:
+            return None
+        g = e.generators[0]
+        if not isinstance(g.target, ast.Name) or g.is_async:
+            return None
+        try:
+            it = self.eval(g.iter, fr)
+        except Inexact:
+            return None
+        if not isinstance(it, T) or it in self.world.sym_iter_len or \
+                self.world.sym_iter_hook is not None:
+            return None
+        self.fresh_n += 1
+        ph = T('ph', self.fresh_n)
+        if self.types.get(it) == 'str':
+            self.types[ph] = 'str'
+        try:
+            elt = self._pure_term(e.elt, {g.target.id: ph}, fr)
+            conds = [self._pure_term(c, {g.target.id: ph}, fr)
+                     for c in g.ifs]
+        except (Inexact, AbsRaise):
+            return None
+        t = T('comp', 'set' if kind == 'set' else 'list', it, ph, elt,
+              *conds)
+        self.types[t] = 'list'
+        return t
+
     def _comp(self, e, fr, kind):
         """Comprehension: concrete when the generators are concrete."""
         results = []
@@ -1525,12 +1598,21 @@ class Interp:
         return results
 
     def ex_ListComp(self, e, fr):
+        t = self._comp_symbolic(e, fr, 'list')
+        if t is not None:
+            return t
         return ListV(self._comp(e, fr, 'list'))
 
     def ex_GeneratorExp(self, e, fr):
+        t = self._comp_symbolic(e, fr, 'gen')
+        if t is not None:
+            return t
         return ListV(self._comp(e, fr, 'gen'))
 
     def ex_SetComp(self, e, fr):
+        t = self._comp_symbolic(e, fr, 'set')
+        if t is not None:
+            return t
         return SetV(self._comp(e, fr, 'set'))
 
     def ex_DictComp(self, e, fr):
